@@ -1,0 +1,181 @@
+//! Read-only state probes for external verification harnesses
+//!
+//! Only compiled with the `verif-hooks` feature. Nothing in here mutates protocol state.
+#![allow(missing_docs)]
+
+/// Projection of one packet number space
+#[derive(Debug, Clone, Default, PartialEq, Eq)]
+pub struct SpaceProbe {
+    pub has_keys: bool,
+    pub next_pn: u64,
+    pub largest_acked: Option<u64>,
+    pub rx_packet: u64,
+    pub dedup_next: u64,
+    pub loss_probes: u32,
+    pub ping_pending: bool,
+    pub immediate_ack_pending: bool,
+    /// (pn, size, ack_eliciting, path_generation, time_sent_us)
+    pub sent: Vec<(u64, u16, bool, u64, i64)>,
+    pub lost_packets: usize,
+    pub loss_time_us: Option<i64>,
+    pub last_ack_eliciting_us: Option<i64>,
+    pub unacked_non_ack_eliciting_tail: u64,
+    pub largest_ack_eliciting_sent: u64,
+    pub crypto_offset: u64,
+    pub crypto_read: u64,
+    pub pending_crypto: usize,
+    pub pending_retire_cids: usize,
+    pub pending_new_cids: usize,
+    pub pending_max_data: bool,
+    pub pending_reset_stream: usize,
+    pub pending_stop_sending: usize,
+    pub pending_max_stream_data: usize,
+    pub pending_new_tokens: usize,
+    pub pending_ack_ranges: usize,
+    pub pending_handshake_done: bool,
+}
+
+/// Projection of one network path
+#[derive(Debug, Clone, Default, PartialEq, Eq)]
+pub struct PathProbe {
+    pub remote: Option<std::net::SocketAddr>,
+    pub generation: u64,
+    pub validated: bool,
+    pub total_sent: u64,
+    pub total_recvd: u64,
+    pub challenge: bool,
+    pub challenge_pending: bool,
+    pub in_flight_bytes: u64,
+    pub in_flight_ack_eliciting: u64,
+    pub mtu: u16,
+    pub cwnd: u64,
+    pub sending_ecn: bool,
+    pub rtt_us: u64,
+    pub pto_base_us: u64,
+}
+
+/// Projection of one stream's send half
+#[derive(Debug, Clone, Default, PartialEq, Eq)]
+pub struct SendProbe {
+    pub id: u64,
+    /// 0 Ready, 1 DataSent{finish_acked: false}, 2 DataSent{finish_acked: true}, 3 ResetSent
+    pub state: u8,
+    pub max_data: u64,
+    pub offset: u64,
+    pub unacked: u64,
+    pub fin_pending: bool,
+    pub connection_blocked: bool,
+    pub stop_reason: Option<u64>,
+    pub fully_acked: bool,
+}
+
+/// Projection of one stream's receive half
+#[derive(Debug, Clone, Default, PartialEq, Eq)]
+pub struct RecvProbe {
+    pub id: u64,
+    /// 0 Recv{size: None}, 1 Recv{size: Some}, 2 ResetRecvd
+    pub state: u8,
+    pub final_size: Option<u64>,
+    pub reset_code: Option<u64>,
+    pub end: u64,
+    pub stopped: bool,
+    pub sent_max_stream_data: u64,
+    pub bytes_read: u64,
+    pub buffered: usize,
+    pub allocated: usize,
+    pub chunks: usize,
+}
+
+/// Projection of stream and flow control accounting
+#[derive(Debug, Clone, Default, PartialEq, Eq)]
+pub struct StreamsProbe {
+    pub next: [u64; 2],
+    pub max: [u64; 2],
+    pub max_remote: [u64; 2],
+    pub sent_max_remote: [u64; 2],
+    pub allocated_remote_count: [u64; 2],
+    pub max_concurrent_remote_count: [u64; 2],
+    pub next_remote: [u64; 2],
+    pub next_reported_remote: [u64; 2],
+    pub send_streams: usize,
+    pub events: usize,
+    pub connection_blocked: usize,
+    pub max_data: u64,
+    pub receive_window: u64,
+    pub local_max_data: u64,
+    pub sent_max_data: u64,
+    pub data_sent: u64,
+    pub data_recvd: u64,
+    pub unacked_data: u64,
+    pub send_window: u64,
+    pub stream_receive_window: u64,
+    pub receive_window_shrink_debt: u64,
+    pub streams_blocked: [bool; 2],
+    pub send: Vec<SendProbe>,
+    pub recv: Vec<RecvProbe>,
+    pub send_slots: usize,
+    pub recv_slots: usize,
+}
+
+/// Projection of a [`Connection`](crate::Connection)
+#[derive(Debug, Clone, Default, PartialEq, Eq)]
+pub struct ConnProbe {
+    /// 0 Handshake, 1 Established, 2 Closed, 3 Draining, 4 Drained
+    pub state: u8,
+    pub close_flag: bool,
+    pub error_pending: bool,
+    pub events_pending: usize,
+    pub endpoint_events_pending: usize,
+    pub highest_space: u8,
+    pub spaces: [SpaceProbe; 3],
+    pub path: PathProbe,
+    pub prev_path: Option<PathProbe>,
+    /// Armed timers as microsecond offsets from the probe epoch, indexed like `Timer`
+    pub timers: [Option<i64>; 9],
+    pub pto_count: u32,
+    pub pto_us: [u64; 3],
+    pub key_phase: bool,
+    pub prev_crypto: bool,
+    pub zero_rtt_keys: bool,
+    pub zero_rtt_enabled: bool,
+    pub accepted_0rtt: bool,
+    pub idle_timeout_us: Option<u64>,
+    pub permit_idle_reset: bool,
+    pub app_limited: bool,
+    pub authentication_failures: u64,
+    pub total_authed_packets: u64,
+    pub path_responses_empty: bool,
+    pub streams: StreamsProbe,
+    pub dgram_incoming: usize,
+    pub dgram_recv_buffered: usize,
+    pub dgram_outgoing: usize,
+    pub dgram_outgoing_total: usize,
+    pub dgram_send_blocked: bool,
+    pub rem_cid_active_seq: u64,
+    pub loc_cid_issued: u64,
+    pub loc_cid_active: Vec<u64>,
+    pub loc_cid_retire_prior_to: u64,
+    pub peer_max_ack_delay_us: u64,
+    pub max_ack_delay_us: u64,
+}
+
+/// Projection of an [`Endpoint`](crate::Endpoint)
+#[derive(Debug, Clone, Default, PartialEq, Eq)]
+pub struct EndpointProbe {
+    pub connections: usize,
+    pub connection_ids: usize,
+    pub connection_ids_initial: usize,
+    pub incoming_connection_remotes: usize,
+    pub outgoing_connection_remotes: usize,
+    pub reset_tokens: usize,
+    pub incoming_buffers: usize,
+    pub incoming_buffer_bytes: u64,
+}
+
+pub(crate) fn us(t: crate::Instant, epoch: crate::Instant) -> i64 {
+    if t >= epoch {
+        t.duration_since(epoch).as_micros() as i64
+    } else {
+        -(epoch.duration_since(t).as_micros() as i64)
+    }
+}
